@@ -104,8 +104,10 @@ impl<T: SerChunky> Spec for SerSpec<T> {
                 if e.dbg() != before {
                     fault.push((format!("{}.serialize:modifies-estimator", T::NAME), format!("was {before}, is {}", e.dbg())));
                 }
-                if js.contains("null") {
-                    // a non-finite field (serde_json writes it as null): outside the statement
+                if non_finite_fields(&before) {
+                    // a non-finite field (serde_json writes it as null): outside the statement.
+                    // Decided on the estimator's own fields (derived Debug), not on the JSON: a
+                    // finite state that is *written* as null must still come back unchanged.
                     return SState { e: Ok(e.clone()), fault, skipped_non_finite: true };
                 }
                 let r = match guarded(|| T::from_json(&js)) {
@@ -238,7 +240,7 @@ impl<T: SerChunky> SerLasso<T> {
                 Ok(j) => j,
                 Err(e) => return (steps, vec![(Violation { sig: format!("{}.serialize:error", T::NAME), detail: e }, k)]),
             };
-            if js.contains("null") {
+            if non_finite_fields(&restored.dbg()) {
                 continue;
             }
             let r = match guarded(|| T::from_json(&js)) {
@@ -294,6 +296,17 @@ impl<T: SerChunky> Check for SerLasso<T> {
         Ok(self.run_word(&w).1.into_iter().map(|(v, _)| v).collect())
     }
 }
+/// does the derived Debug rendering of an estimator show a non-finite field?
+fn non_finite_fields(dbg: &str) -> bool {
+    // the tokens `inf` and `NaN` as f64's Debug prints them (not as part of an identifier)
+    let b = dbg.as_bytes();
+    let word = |i: usize, len: usize| {
+        let before = i == 0 || !(b[i - 1].is_ascii_alphanumeric() || b[i - 1] == b'_');
+        let after = i + len >= b.len() || !(b[i + len].is_ascii_alphanumeric() || b[i + len] == b'_');
+        before && after
+    };
+    (0..b.len()).any(|i| (b[i..].starts_with(b"inf") && word(i, 3)) || (b[i..].starts_with(b"NaN") && word(i, 3)))
+}
 fn serl<T: SerChunky>(name: &str, alpha: Vec<T::Item>, max_word: usize, n: usize) -> Box<dyn Check> {
     Box::new(SerLasso::<T> { alpha_name: name.into(), alpha, max_word, n })
 }
@@ -303,7 +316,7 @@ pub fn plan(tier: Tier) -> Plan {
     let d = if q { 4 } else { 6 };
     let mut checks: Vec<Box<dyn Check>> = Vec::new();
     let _ = all_lists(&[0.], 1);
-    for a in ["tri", "off9", "dec"] {
+    for a in ["tri", "off9", "dec", "zero3"] {
         let al = sub_alphabet(a, 3);
         checks.push(ser::<U<Mean>>(a, al.clone(), d));
         checks.push(ser::<U<Variance>>(a, al.clone(), d));
@@ -351,6 +364,15 @@ pub fn plan(tier: Tier) -> Plan {
     checks.push(serl::<WeightedMeanWithError>("w3", vec![(-1., 0.), (0.1, 0.5), (3., 1e6)], 3, n));
     checks.push(serl::<Covariance>("corr3", vec![(1., 5.), (2., 4.1), (-3., 0.1)], 3, n));
     checks.push(serl::<HistChunk<average::Histogram10>>("samples", vec![0.5, 4.5, 9.5], 2, n));
+    // weights that are not dyadic (their running sums round)
+    let wdec = vec![(1., 0.1), (2., 0.2), (3., 0.3)];
+    checks.push(ser::<WeightedMean>("wdec", wdec.clone(), d));
+    checks.push(ser::<WeightedMeanWithError>("wdec", wdec.clone(), d));
+    checks.push(serl::<WeightedMean>("wdec", wdec.clone(), 3, n));
+    checks.push(serl::<WeightedMeanWithError>("wdec", wdec, 3, n));
+    // odd numbers of bins
+    checks.push(ser::<HistChunk<H1>>("samples", vec![-1., 0.5, 1.], d));
+    checks.push(ser::<HistChunk<H3>>("samples", vec![0.5, 1.5, 2.5], d));
     let wp = vec![(-1., 0.), (0.1, 0.5), (3., 1e6)];
     checks.push(ser::<WeightedMean>("w3", wp.clone(), d));
     checks.push(ser::<WeightedMeanWithError>("w3", wp, d));
